@@ -942,6 +942,34 @@ def gen_world_big_files(rng):
     return w
 
 
+def gen_world_resize_huge(rng):
+    """C14 at the 2^64 limit: files of 2^62 (or 2^61, 2^63-1) declared bytes whose export images exist and are short, with
+    the resize flag: every image must be extended (sparsely) to its declared length — the missing bytes of all images
+    together exceed 2^64. Judged on the outcome (the model would have to materialise the zeros)."""
+    w = World()
+    k = rng.below(3)
+    big = [1 << 62, 1 << 62, 1 << 62, 1 << 62] if k == 0 else ([(1 << 63) - 1, (1 << 63) - 1, 2] if k == 1 else [1 << 61] * 8)
+    L = max(big)
+    total = sum(big)
+    doc = G.benc(G.meta_doc(name=b"huge", piece_length=L, files=[(n, [b"h%d" % i]) for i, n in enumerate(big)], nhashes=(total + L - 1) // L))
+    w.docs = [doc]; w.has_truth = False
+    w.dirs.add(w.export)
+    w.scan = [(b"scan0",)]
+    w.add_file((b"scan0", b".keep"), b"k")
+    import hashlib
+    infod = [v for kk, v in G.meta_doc(name=b"huge", piece_length=L, files=[(n, [b"h%d" % i]) for i, n in enumerate(big)], nhashes=(total + L - 1) // L)[1] if kk == b"info"][0]
+    hexhash = hashlib.sha1(G.benc(infod)).hexdigest().encode()
+    w.expect_lengths = {}
+    for i, n in enumerate(big):
+        p = w.export + (hexhash, b"Data", b"huge", b"h%d" % i)
+        w.add_file(p, b"" if rng.chance(2, 3) else b"xy")
+        w.expect_lengths[p] = n
+    w.add_file((b"bystander", b"note.txt"), b"do not touch")
+    w.resize = True
+    w.tag = "enormous declared length"
+    return w
+
+
 def gen_world_misfiled(rng):
     """C01: export images that hold ANOTHER torrent file's (correct) bytes — a mis-filed download. The matcher may
     legitimately use such an image as the source of the other file's segment; what is written must still be the
